@@ -171,6 +171,24 @@ func buildCatalogue() string {
 		}
 		b.WriteString("\n")
 	}
-	b.WriteString("]\n\nend Zog.Gen\n")
+	b.WriteString("]\n\n")
+	// (plain code, negated code) of every negatable string test
+	byName := map[string]string{}
+	for _, e := range entries {
+		byName[e.builder] = e.code
+	}
+	b.WriteString("/-- (method, code of String.<method>, code of String.Not().<method>) -/\ndef notPairs : List (List Char × List Char) := [\n")
+	first := true
+	for _, e := range entries {
+		if strings.HasPrefix(e.builder, "String.Not.") {
+			m := strings.TrimPrefix(e.builder, "String.Not.")
+			if !first {
+				b.WriteString(",\n")
+			}
+			first = false
+			fmt.Fprintf(&b, "  -- %s: %q / %q\n  (%s, %s)", m, byName["String."+m], e.code, leanChars(byName["String."+m]), leanChars(e.code))
+		}
+	}
+	b.WriteString("\n]\n\nend Zog.Gen\n")
 	return b.String()
 }
